@@ -366,20 +366,24 @@ def hasDup {α} [DecidableEq α] : List α → Bool
   | [] => false
   | x :: xs => xs.contains x || hasDup xs
 
+def validateAmtEntry (a : Option (Int × String) × Option (Int × String) × String × Int × Int) : Res Unit := do
+  let (src, dst, denom, inc, out) := a
+  if denom == "" then (.err "genesis:empty-denom" : Res Unit) else pure ()
+  if !validId src then (.err "genesis:source-id" : Res Unit) else pure ()
+  if !validId dst then (.err "genesis:destination-id" : Res Unit) else pure ()
+  if inc < 0 || out < 0 then (.err "genesis:negative" : Res Unit) else pure ()
+  if inc ≤ 0 && out ≤ 0 then (.err "genesis:zero" : Res Unit) else pure ()
+
+def validateCntEntry (c : Option (Int × String) × Option (Int × String) × Nat) : Res Unit := do
+  let (src, dst, n) := c
+  if n == 0 then (.err "genesis:zero-count" : Res Unit) else pure ()
+  if !validId src then (.err "genesis:source-id" : Res Unit) else pure ()
+  if !validId dst then (.err "genesis:destination-id" : Res Unit) else pure ()
+
 /-- `GenesisState.Validate` (all four components, in the module's order). -/
 def validateGenesis (g : Genesis) : Res Unit := do
-  for a in g.amounts do
-    let (src, dst, denom, inc, out) := a
-    if denom == "" then (.err "genesis:empty-denom" : Res Unit) else pure ()
-    if !validId src then (.err "genesis:source-id" : Res Unit) else pure ()
-    if !validId dst then (.err "genesis:destination-id" : Res Unit) else pure ()
-    if inc < 0 || out < 0 then (.err "genesis:negative" : Res Unit) else pure ()
-    if inc ≤ 0 && out ≤ 0 then (.err "genesis:zero" : Res Unit) else pure ()
-  for c in g.counts do
-    let (src, dst, n) := c
-    if n == 0 then (.err "genesis:zero-count" : Res Unit) else pure ()
-    if !validId src then (.err "genesis:source-id" : Res Unit) else pure ()
-    if !validId dst then (.err "genesis:destination-id" : Res Unit) else pure ()
+  Res.allM validateAmtEntry g.amounts
+  Res.allM validateCntEntry g.counts
   if g.pausedProtocols.any (fun p => !protocolValid p) then (.err "genesis:protocol-id" : Res Unit) else pure ()
   if g.pausedCrossChains.any (fun c => !validId c) then (.err "genesis:cross-chain-id" : Res Unit) else pure ()
   if hasDup g.pausedProtocols then (.err "genesis:duplicate-protocol" : Res Unit) else pure ()
@@ -390,29 +394,36 @@ def validateGenesis (g : Genesis) : Res Unit := do
 /-- An error during `InitGenesis` is a panic. -/
 def asPanic (r : Res OrbState) : Res OrbState := match r with | .err t => .panic ("InitGenesis:" ++ t) | x => x
 
+/-- One dispatched-amounts entry: a plain set (a later duplicate overwrites); a NUL in a non-terminal key
+part fails to encode; the destination indexes are computed from the textual id on every Set. -/
+def initAmtStep (o : OrbState) (a : Option (Int × String) × Option (Int × String) × String × Int × Int) : Res OrbState :=
+  match a with
+  | (some src, some dst, denom, inc, out) =>
+    let dstId := ccidString dst.1 dst.2
+    if hasNul src.2 || hasNul dstId then (.panic "InitGenesis:key-encoding" : Res OrbState)
+    else if (parseCrossChainID dstId).isNone then .panic "InitGenesis:index"
+    else pure { o with amounts := upsert amtLt o.amounts { srcProto := src.1, srcCp := src.2, dstId := dstId, denom := denom } (inc, out) }
+  | _ => .panic "InitGenesis:nil-id"
+
+def initCntStep (o : OrbState) (c : Option (Int × String) × Option (Int × String) × Nat) : Res OrbState :=
+  match c with
+  | (some src, some dst, n) =>
+    if hasNul src.2 then (.panic "InitGenesis:key-encoding" : Res OrbState)
+    else pure { o with counts := upsert cntLt o.counts { srcProto := src.1, srcCp := src.2, dstProto := dst.1, dstCp := dst.2 } n }
+  | _ => .panic "InitGenesis:nil-id"
+
+def initCcStep (o : OrbState) (c : Option (Int × String)) : Res OrbState :=
+  match c with
+  | some (p, cp) => asPanic (setPausedCrossChain o p cp)
+  | none => .panic "InitGenesis:nil-id"
+
 /-- `Keeper.InitGenesis` on an empty store. Any component error is a panic. -/
 def initGenesis (g : Genesis) : Res OrbState := do
   let o : OrbState := { params := some g.params }
-  -- dispatcher: plain sets (a later duplicate overwrites); a NUL in a non-terminal key part fails to encode
-  let o ← g.amounts.foldlM (fun (o : OrbState) a =>
-      match a with
-      | (some src, some dst, denom, inc, out) =>
-        let dstId := ccidString dst.1 dst.2
-        if hasNul src.2 || hasNul dstId then (.panic "InitGenesis:key-encoding" : Res OrbState)
-        -- the destination indexes are computed from the textual id on every Set
-        else if (parseCrossChainID dstId).isNone then .panic "InitGenesis:index"
-        else pure { o with amounts := upsert amtLt o.amounts { srcProto := src.1, srcCp := src.2, dstId := dstId, denom := denom } (inc, out) }
-      | _ => .panic "InitGenesis:nil-id") o
-  let o ← g.counts.foldlM (fun (o : OrbState) c =>
-      match c with
-      | (some src, some dst, n) =>
-        if hasNul src.2 then (.panic "InitGenesis:key-encoding" : Res OrbState)
-        else pure { o with counts := upsert cntLt o.counts { srcProto := src.1, srcCp := src.2, dstProto := dst.1, dstCp := dst.2 } n }
-      | _ => .panic "InitGenesis:nil-id") o
+  let o ← g.amounts.foldlM initAmtStep o
+  let o ← g.counts.foldlM initCntStep o
   let o ← g.pausedProtocols.foldlM (fun o p => asPanic (setPausedProtocol o p)) o
-  let o ← g.pausedCrossChains.foldlM (fun o c => match c with
-      | some (p, cp) => asPanic (setPausedCrossChain o p cp)
-      | none => .panic "InitGenesis:nil-id") o
+  let o ← g.pausedCrossChains.foldlM initCcStep o
   g.pausedActions.foldlM (fun o a => asPanic (setPausedAction o a)) o
 
 end Orbiter
